@@ -71,6 +71,7 @@ type structSort struct {
 	Sorts  []Sort
 	GoT    *types.Struct
 	Named  string
+	GoType types.Type
 }
 
 func newWorld() *World {
@@ -140,7 +141,11 @@ func (w *World) sortOf(t types.Type) Sort {
 	switch tt := t.(type) {
 	case *types.Named:
 		if st, ok := tt.Underlying().(*types.Struct); ok {
-			return w.structSortOf(namedKey(tt), st)
+			n := w.structSortOf(namedKey(tt), st)
+			if ss := w.structSorts[n]; ss != nil && ss.GoType == nil {
+				ss.GoType = tt
+			}
+			return n
 		}
 		return w.sortOf(tt.Underlying())
 	case *types.Alias:
